@@ -373,6 +373,10 @@ class Rig:
     def mark(self, m):
         if m == "topen":
             self.dead_seen = False
+        if m == "topen" or m == "operate" or m.startswith("a:") or m.startswith("auth:"):
+            for c in (getattr(self, "_spin", None), getattr(self, "_errs", None)):
+                if c is not None:
+                    c[0] = 0
         self.marks.append(m)
         self.net.trace.append(("mark", m, self.usable()))
 
@@ -549,9 +553,10 @@ class Rig:
     def _wrap_read(self):
         rig, t = self, self.t
         read = t.read
-        spin = [0]
+        # both counters measure ONE device-facing step going round in circles; mark() zeroes them when a new step starts
+        spin = self._spin = [0]
         telnet = self.kind != "sim"
-        errs = [0]
+        errs = self._errs = [0]
 
         def conn_error():
             # a caller that swallows the connection error and tries again (in-channel telnet login) would go round
